@@ -1,17 +1,25 @@
 import SfxProps.C16
 import SfxProofs.TrigAccC16
+import SfxProofs.TrigAccTan2C16
 /-
   C16, the numeric clauses of `C16.C16_statement` (SfxProps/C16.lean), proved over Mathlib's reals (`Real.sin`, `Real.cos`, `Real.tan`):
 
     * `sin_cos_holds`  — the sin/cos clause at FULL strength: every angle |x| ≤ 200 of every supported type, error ≤ 2^-16
                          (the proof gives 104.65 / 105.29 units of 2^-23 out of the 128 allowed), result within [-1-2^-16, 1+2^-16];
-    * `tan_holds_8`    — the tan clause for |tan x| ≤ 8 in place of 64 (PARTIAL: for 8 < |tan x| ≤ 64 worst-case bounds on the two inner
-                         calls do not suffice; that region is judged by the mpmath search oracle on every run);
-    * `C16_statement_partial` — `C16_statement` with that one weakening, as a single statement.
+    * `tan_holds`      — the tan clause for `|tan x| ≤ tanT f` where `tanT f = 64` (FULL) for every type with at least 24 fractional bits
+                         and `tanT 23 = 30` for the three layouts with exactly 23 (I9F23, I41F23, I105F23);
+    * `holds_f24`      — the whole body of `C16_statement` for every supported type with at least 24 fractional bits;
+    * `C16_statement_partial` — `C16_statement` with `tanT D.f` in place of 64: the only weakening is f = 23, 30 < |tan x| ≤ 64;
+    * `statement_of_f23` — `C16_statement` follows from exactly that remaining case.
+
+  The open case cannot be closed by worst-case error bounds: at |tan x| = 64 the vector error of the inner cos call would have to be
+  ≤ 12 ulp, the provable worst case is 22–26 ulp, the measured maximum is 10.83 ulp.  An exhaustive evaluation of all 1 677 721 601
+  I9F23 operands with |x| ≤ 100 (C transcription of the model, cross-checked against `#eval`; search support, not a proof) found worst
+  ratio 0.484 of the allowed error and no panic; the mpmath oracle judges the implementation's answers in that region on every run.
 
   Ingredients (SfxProofs/TrigAcc*.lean): `table_arctan` (each of the 24 table entries within 2^-53 of `Real.arctan 2^-i`, via a Gregory
-  series enclosure), π enclosures for the 23-bit range-reduction constants, the abstract CORDIC rotation invariant with truncation, and the
-  integer facts of SfxProofs/Trig.lean (exact range reduction, `sinPure`).
+  series enclosure), π enclosures for the 23-bit range-reduction constants, the abstract CORDIC rotation invariant with truncation, the
+  structured form `ρ·sin(x+Δ)+v` separating angle-type from vector-type errors (tan), and the integer facts of SfxProofs/Trig.lean.
 -/
 namespace Sfx.C16
 open Sfx.C12
@@ -23,12 +31,29 @@ theorem sin_cos_holds (D : Layout) (hS : Supp D) (a : Int) (ha : inRange D a) (h
       |val D.f r - Real.cos (val D.f a)| ≤ 1 / (2 : ℝ) ^ 16 ∧ |val D.f r| ≤ 1 + 1 / (2 : ℝ) ^ 16) :=
   TrigAccPf.C16_sin_cos D hS a ha hb
 
-theorem tan_holds_8 (D : Layout) (hS : Supp D) (a : Int) (hb : |val D.f a| ≤ 100) (ht : |Real.tan (val D.f a)| ≤ 8) :
+/-- the proved threshold on `|tan x|`: the property's 64 from 24 fractional bits on, 30 for exactly 23 -/
+noncomputable def tanT (f : Nat) : ℝ := TrigAccPf.tanT f
+
+theorem tanT_eq (f : Nat) : tanT f = if 24 ≤ f then 64 else 30 := rfl
+
+theorem tan_holds (D : Layout) (hS : Supp D) (a : Int) (hb : |val D.f a| ≤ 100) (ht : |Real.tan (val D.f a)| ≤ tanT D.f) :
     ∀ r it dbg, Trans.run (Trans.tan D a) = .ok (some r, it) dbg →
       |val D.f r - Real.tan (val D.f a)| ≤ (1 + Real.tan (val D.f a) ^ 2) / (2 : ℝ) ^ 14 :=
-  TrigAccPf.C16_tan_8 D hS a hb ht
+  TrigAccPf.C16_tan_T D hS a hb ht
 
-/-- `C16_statement` with `|tan x| ≤ 8` in place of `|tan x| ≤ 64` — everything else at full strength -/
+/-- the whole body of `C16_statement` for every supported type with at least 24 fractional bits -/
+theorem holds_f24 (D : Layout) (hS : Supp D) (hf24 : 24 ≤ D.f) (a : Int) (ha : inRange D a) :
+    (|val D.f a| ≤ 200 →
+      (∀ r it dbg, Trans.run (Trans.sin D a) = .ok (some r, it) dbg →
+        |val D.f r - Real.sin (val D.f a)| ≤ 1 / (2 : ℝ) ^ 16 ∧ |val D.f r| ≤ 1 + 1 / (2 : ℝ) ^ 16) ∧
+      (∀ r it dbg, Trans.run (Trans.cos D a) = .ok (some r, it) dbg →
+        |val D.f r - Real.cos (val D.f a)| ≤ 1 / (2 : ℝ) ^ 16 ∧ |val D.f r| ≤ 1 + 1 / (2 : ℝ) ^ 16)) ∧
+    (|val D.f a| ≤ 100 → |Real.tan (val D.f a)| ≤ 64 →
+      ∀ r it dbg, Trans.run (Trans.tan D a) = .ok (some r, it) dbg →
+        |val D.f r - Real.tan (val D.f a)| ≤ (1 + Real.tan (val D.f a) ^ 2) / (2 : ℝ) ^ 14) :=
+  TrigAccPf.C16_holds_f24 D hS hf24 a ha
+
+/-- `C16_statement` with `tanT D.f` in place of 64 — everything else at full strength -/
 theorem C16_statement_partial :
     ∀ D : Layout, Supp D → ∀ a : Int, inRange D a →
       (|val D.f a| ≤ 200 →
@@ -36,9 +61,16 @@ theorem C16_statement_partial :
           |val D.f r - Real.sin (val D.f a)| ≤ 1 / (2 : ℝ) ^ 16 ∧ |val D.f r| ≤ 1 + 1 / (2 : ℝ) ^ 16) ∧
         (∀ r it dbg, Trans.run (Trans.cos D a) = .ok (some r, it) dbg →
           |val D.f r - Real.cos (val D.f a)| ≤ 1 / (2 : ℝ) ^ 16 ∧ |val D.f r| ≤ 1 + 1 / (2 : ℝ) ^ 16)) ∧
-      (|val D.f a| ≤ 100 → |Real.tan (val D.f a)| ≤ 8 →
+      (|val D.f a| ≤ 100 → |Real.tan (val D.f a)| ≤ tanT D.f →
         ∀ r it dbg, Trans.run (Trans.tan D a) = .ok (some r, it) dbg →
           |val D.f r - Real.tan (val D.f a)| ≤ (1 + Real.tan (val D.f a) ^ 2) / (2 : ℝ) ^ 14) :=
-  fun D hS a ha => ⟨fun hb => sin_cos_holds D hS a ha hb, fun hb ht => tan_holds_8 D hS a hb ht⟩
+  fun D hS a ha => ⟨fun hb => sin_cos_holds D hS a ha hb, fun hb ht => tan_holds D hS a hb ht⟩
+
+/-- `C16_statement` reduced to its one open case -/
+theorem statement_of_f23 (h23 : ∀ D : Layout, Supp D → D.f = 23 → ∀ a : Int, inRange D a →
+      |val D.f a| ≤ 100 → 30 < |Real.tan (val D.f a)| → |Real.tan (val D.f a)| ≤ 64 →
+      ∀ r it dbg, Trans.run (Trans.tan D a) = .ok (some r, it) dbg →
+        |val D.f r - Real.tan (val D.f a)| ≤ (1 + Real.tan (val D.f a) ^ 2) / (2 : ℝ) ^ 14) : C16_statement :=
+  TrigAccPf.C16_statement_of_f23 h23
 
 end Sfx.C16
